@@ -225,6 +225,7 @@ theorem FrameQ.trans {a b c : State} (h1 : FrameQ a b) (h2 : FrameQ b c) : Frame
   ⟨h2.farmers.trans h1.farmers, h2.ledger.trans h1.ledger, h1.evolve.trans h2.evolve⟩
 
 theorem BankOnly.frameQ {s s' : State} (b : BankOnly s s') : FrameQ s s' := ⟨b.farmers, b.ledger, evolveQ_same b.pools⟩
+theorem Quiet.frameQ {s s' : State} (b : Quiet s s') : FrameQ s s' := ⟨b.farmers, b.ledger, evolveQ_same b.pools⟩
 
 theorem updOk_frameQ {s s' : State} {id : PoolId} {p p' : Pool} {amount : Int} {d : Bool}
     (hp : getPool s id = some p) (h : UpdOk s s' id p p' amount d) : FrameQ s s' :=
@@ -274,7 +275,7 @@ theorem refund_frameQ {s : State} {id : PoolId} {p : Pool} (hp : getPool s id = 
     rcases hr with ⟨_, hr⟩ | ⟨_, e, _, hr⟩ | ⟨_, s2, hs, hr⟩
     · rw [hr]; exact (f0.trans f1).trans f2
     · rw [hr]; exact (f0.trans f1).trans f2
-    · rw [hr]; exact ((f0.trans f1).trans f2).trans (sendAll_ok hs).1.frameQ
+    · rw [hr]; exact (((f0.trans f1).trans f2).trans (sendAll_ok hs).1.frameQ).trans (withCp_quiet _ _).frameQ
 
 theorem endBlockOne_frameQ {s s' : State} {id : PoolId} (h : endBlockOne s id = .ok s') : FrameQ s s' := by
   unfold endBlockOne at h
@@ -313,6 +314,26 @@ theorem enqueue_frameQ (s : State) (id : PoolId) (h : Int) : FrameQ s (enqueue s
   unfold enqueue; split
   · exact FrameQ.refl _
   · exact ⟨rfl, rfl, evolveQ_same rfl⟩
+
+theorem createCore_frameQ {s2 s' : State} {id creator desc lpt start rpb total editable}
+    (h : createPoolCore s2 id creator desc lpt start rpb total editable = .ok s') : FrameQ s2 s' := by
+  obtain ⟨m, hnone, _, rfl⟩ := createPoolCore_ok h
+  refine FrameQ.trans ?_ (enqueue_frameQ _ _ _)
+  refine ⟨rfl, rfl, evolveQ_new hnone rfl ?_⟩
+  intro r hr
+  show PairOK {} r
+  unfold newRules at hr
+  simp only [List.mem_map] at hr
+  obtain ⟨c, _, e⟩ := hr
+  rw [← e]
+  refine ⟨Nat.le_refl _, ?_, ?_⟩ <;> simp [markDeficit, deficit, Dec.zero]
+
+theorem qEffect_frameQ {s s' : State} (h : QEffect s s') : FrameQ s s' := by
+  cases h with
+  | frame f => exact f.frameQ
+  | created sa s2 c f1 hd f2 =>
+    obtain ⟨_, _, _, s1, h1, h2⟩ := hd
+    exact ((f1.frameQ.trans (sendAll_ok h1).1.frameQ).trans (createCore_frameQ h2)).trans f2.frameQ
 
 theorem createPool_frameQ {s s' : State} {id sender desc lpt start rpb total editable}
     (h : stepCreatePool s id sender desc lpt start rpb total editable = .ok s') : FrameQ s s' := by
@@ -514,12 +535,18 @@ theorem qInv_stepMsg {s s' : State} {op : Op} (hi : Inv s) (hq : QInv s) (h : st
   | unstake sender id denom amt => exact qInv_unstake hi hq h
   | harvest sender id => exact qInv_harvest hi hq h
   | endBlocks n => simp [stepMsg] at h; subst h; exact hq
+  | cpPass pid => simp [stepMsg] at h; subst h; exact hq
+  | cpReject pid => simp [stepMsg] at h; subst h; exact hq
+  | cpFailDeposit pid => simp [stepMsg] at h; subst h; exact hq
+  | cpSubmit proposer title c deposit => exact qInv_frameQ (cpSubmit_quiet h).frameQ hq
+  | fundCp sender amt => exact qInv_frameQ (fundCp_quiet h).frameQ hq
 
 theorem qInv_apply (s : State) (op : Op) (hi : Inv s) (hq : QInv s) : QInv (apply s op) := by
-  rcases apply_cases s op with ⟨n, _, h⟩ | h | ⟨h, _, _⟩
+  rcases apply_cases s op with ⟨n, _, h⟩ | h | ⟨h, _, _⟩ | h
   · rw [h]; exact qInv_frameQ (endBlocks_frameQ n s) hq
   · rw [h]; exact hq
   · exact qInv_stepMsg hi hq h
+  · exact qInv_frameQ (qEffect_frameQ (govStep_q h)) hq
 
 theorem qInv_run : ∀ (ops : List Op) (s : State), Inv s → QInv s → QInv (run s ops)
   | [], _, _, hq => hq
